@@ -4,6 +4,9 @@ import (
 	"encoding/json"
 	"os"
 
+	"verif/harness/c02"
+	"verif/harness/tla"
+
 	"verif/harness/c13"
 	"verif/harness/c14"
 	"verif/harness/c15"
@@ -85,6 +88,21 @@ func runC15(c *core.Check) {
 		r2.ConstSubst = map[string]string{"Alphabet": "Core"}
 		streamTLC(c, r2, func(st core.State) {
 			src := c14.SourceOf(st)
+			c.Count("vectors_replayed", 1)
+			c15.CheckInput(c, src, c15.NativeEntries(), map[string]any{"state": st.Raw, "source": string(src), "kind": "native"})
+		})
+	}
+	// bodies of up to four items from the structural layout machine (canonical layout), INCLUDING the
+	// rejected ones: two and more names defined twice, at the top level and inside blocks (several
+	// diagnostics whose order must not depend on anything but the input)
+	{
+		r := core.TLCRun{Module: "MC_C02", Cfg: "MC_C02_plain.cfg", Consts: map[string]string{"MaxItems": "4", "MaxL": "0", "LabelMode": "\"few\""}, Timeout: minutes(30), KeepVars: []string{"closed", "out", "tree", "cost"}}
+		r.ConstSubst = map[string]string{"Values": "MCValuesFew"}
+		streamTLC(c, r, func(st core.State) {
+			if !tla.Bool(st.Vars["closed"]) {
+				return
+			}
+			src := []byte(c02.Source(st))
 			c.Count("vectors_replayed", 1)
 			c15.CheckInput(c, src, c15.NativeEntries(), map[string]any{"state": st.Raw, "source": string(src), "kind": "native"})
 		})
